@@ -74,3 +74,38 @@ func HarnessPHCFree() {
 		}
 	}, "c16.phc-parse-panic")
 }
+
+// C20 "login succeeds only with the password whose stored hash verifies": the key derivation
+// itself (argon2) and the constant-time comparison are trusted; what is checked is that the
+// WHOLE submitted password, the stored salt and the stored cost parameters are what reservoir
+// feeds the derivation - for every password of 0..70 bytes - and that the verdict is exactly
+// the comparison of the derived key with the stored one.
+func HarnessVerifyFeedsWholePassword() {
+	lens := []int{0, 1, 8, 63, 64, 65, 70}
+	pw := symString(lens[symChoice(len(lens))])
+	if symChoice(2) == 0 {
+		p := &PHC{id: "argon2id", version: 19, memory: uint32(symInt()), time: uint32(symInt()), threads: symByte(), keyLen: uint32(symInt()), hash: []byte{1, 2, 3, 4}}
+		for i := range p.salt {
+			p.salt[i] = symByte()
+		}
+		ok := p.VerifyArgon2id(pw)
+		vReach("verify")
+		kp, ks, kt, km, kth, kl := vKDFInput()
+		vAssert(string(kp) == pw, "c20.kdf-input-is-not-the-whole-submitted-password")
+		vAssert(len(ks) == 16, "c20.kdf-salt-is-not-the-stored-salt")
+		for i := 0; i < len(ks) && i < 16; i++ {
+			vAssert(ks[i] == p.salt[i], "c20.kdf-salt-is-not-the-stored-salt")
+		}
+		vAssert(kt == p.time && km == p.memory && kth == p.threads && kl == p.keyLen, "c20.kdf-parameters-are-not-the-stored-ones")
+		vAssert(ok == (vLastVerdict() == 1), "c20.verdict-is-not-the-key-comparison")
+	} else {
+		p := GenerateArgon2id(pw)
+		vReach("generate")
+		kp, ks, kt, km, kth, kl := vKDFInput()
+		vAssert(string(kp) == pw, "c20.kdf-input-is-not-the-whole-submitted-password")
+		vAssert(p != nil && len(ks) == 16 && kt == p.time && km == p.memory && kth == p.threads && kl == p.keyLen, "c20.generated-hash-records-other-parameters")
+		for i := 0; i < len(ks) && i < 16; i++ {
+			vAssert(ks[i] == p.salt[i], "c20.generated-hash-records-another-salt")
+		}
+	}
+}
